@@ -110,7 +110,7 @@ def has_writer(v, depth=0):
     return False
 
 
-_G = collections.namedtuple('G', 'S SRC Lm Lq LBp MB MBp OB HP HH S0 CL NL DEF WL HW OM REL DW RO')
+_G = collections.namedtuple('G', 'S SRC Lm Lq LBp MB MBp OB HP HH S0 CL NL DEF WL HW OM REL DW RO SY PL')
 
 
 class G(_G):
@@ -168,6 +168,9 @@ class Machine:
         self.LIVE = {}
         self.samples = []
         self.linestart_seen = set()
+        self.ls_index = {}
+        self.cur_origin = None
+        self.ls_parent = {}
         self.once_checked = 0
         self.pt_claimers = set()
         self.quiet = 0
@@ -333,10 +336,25 @@ class Machine:
                               'frames': set(), 'classes': set()}
         v = self.viol[key]
         v['count'] += 1
-        cls = dict(self.cur_memo).get(('cls', 'line', None), '<eof>' if self.cur_memo and self.cur_memo[0][0] == 'eof' else '?')
+        cls = dict(self.cur_memo).get(('cls', 'line', None), '<eof>' if any(k[0] == 'eof' for k, _ in self.cur_memo) else '?')
         v['via'][st + ' @ ' + self.gstr(g) + ' line-class=%r' % (cls,)] += 1
         v['frames'].update(self.stack)
         v['classes'].add(cls)
+        if 'witness' not in v:
+            v['witness'] = self.witness(dict(self.cur_memo).get(('from', 'line', None), self.cur_origin), cls)
+
+    def witness(self, idx, last_cls):
+        """a sequence of (abstract line-start state, line class) leading to the given line-start state"""
+        chain = []
+        guard = 0
+        while idx is not None and guard < 60:
+            guard += 1
+            par, cls, gs = self.ls_parent.get(idx, (None, None, '?'))
+            chain.append({'state': gs, 'reached_by_line_class': cls})
+            idx = par
+        chain.reverse()
+        chain.append({'then_line_class': last_cls})
+        return chain
 
     # ------------------------------------------------------------------ grammar assumptions (A1..A6)
     A1 = {"old mode ", "new mode ", "deleted file mode ", "new file mode ", "rename from ", "rename to ", "copy from ", "copy to "}
@@ -345,7 +363,10 @@ class Machine:
         if not self.grammar or cls is None:
             return True
         SV = self.SV
-        if cls in self.A1 and g.S != SV['DiffHeader']:
+        if cls in self.A1 and (g.S != SV['DiffHeader'] or g.SRC != self.SRCV['GitDiff']):
+            return False
+        if cls in self.A1 and g.SY and not self.color_only and g.REL not in ('E0', 'DN'):
+            # A1': extended header lines precede the `---`/`+++` lines of their section (they follow the `diff` line directly)
             return False
         if cls == "-Subproject commit " and not (g.S == SV['HunkHeader'] and g.LB == 0):
             return False
@@ -360,9 +381,8 @@ class Machine:
         if cls.startswith('@@') and g.HP == 1:
             # A8: a section with a pending mode header reaches its first hunk only through `---`/`+++` lines
             return False
-        if cls.startswith('@@') and g.REL in ('DN', 'D') and self.shd and not self.color_only:
-            # A9: every hunk is preceded by the `+++` (or `rename to`) line of its section, at which the file header is
-            # emitted (only meaningful when file headers are handled at all: shd)
+        if cls.startswith('@@') and g.S not in self.HUNK_STATES and not (g.PL and g.S == SV['DiffHeader']):
+            # A9: the first hunk header of a file section directly follows the `+++` line of that section
             return False
         if cls == "Binary files " and not (g.S == SV['DiffHeader'] or g.SRC == self.SRCV['DiffUnified']):
             return False
@@ -375,6 +395,11 @@ class Machine:
         if not self.grammar or not val:
             return True
         kind, subj, lit = key
+        if kind == 'regex' and subj == 'line' and 'commit_regex' in str(lit):
+            # A10: the commit-line regex matches only lines that start with none of the other marker literals
+            cls = dict(self.cur_memo).get(('cls', 'line', None))
+            if cls is not None and 'commit' not in cls:
+                return False
         if kind == 'regex' and g.S == self.SV['HunkHeader'] and g.HH == 1 and subj == 'line':
             # A4 for regex-decided section starters (commit line): the line after a hunk header is a hunk-body line
             return False
@@ -531,6 +556,12 @@ class Machine:
             if val[0] == 'enum' and val[1].endswith('Option') and val[2] == 1:
                 return [g._replace(REL='DN' if g.REL in ('E0', 'DN') else 'U')]
             return [g._replace(REL='U')]
+        if path in (('minus_file',), ('plus_file',)) and not self.color_only and not self.passthrough:
+            # the file the following hunks belong to changes: the language must be (re)selected before they are painted
+            return [g._replace(SY=0)]
+        if len(path) >= 2 and path[-1] == 'syntax' and 'painter' in path:
+            self.events['SET_SYNTAX'] += 1
+            return [g._replace(SY=1)]
         if path in (('line',), ('raw_line',)):
             self.events['WRITE_LINE'] += 1
             self.event_sites['WRITE_LINE'].add(fn)
@@ -707,6 +738,13 @@ class Machine:
         if path in self.stack:
             self.unmodelled['recursion ' + path] += 1
             return [(T0, g, memo)]
+        # witness bookkeeping travels with the loop frame only: strip it before entering a handler so that summaries are shared
+        frm = ()
+        if len(self.stack) == 1:
+            frm = tuple(kv for kv in memo if kv[0][0] == 'from')
+            if frm:
+                memo = tuple(kv for kv in memo if kv[0][0] != 'from')
+                self.cur_origin = frm[0][1]
         key = (path, tuple(argvals), g, memo, self.quiet > 0)
         try:
             hash(key)
@@ -714,20 +752,18 @@ class Machine:
             key = None
         if key is not None and key in self.cache:
             self.stats['cache_hit'] += 1
-            return self.cache[key]
-        self.stack.append(path)
-        self.stats['fn_interp'] += 1
-        res = self.run_body(path, b['mir'], argvals, g, memo)
-        self.stack.pop()
-        seen = set()
-        out = []
-        for r in res:
-            if r not in seen:
-                seen.add(r)
-                out.append(r)
-        out = self.on_return(path, argvals, g, out)
-        if key is not None:
-            self.cache[key] = out
+            out = self.cache[key]
+        else:
+            self.stack.append(path)
+            self.stats['fn_interp'] += 1
+            res = self.run_body(path, b['mir'], argvals, g, memo)
+            self.stack.pop()
+            out = list(dict.fromkeys(res))
+            out = self.on_return(path, argvals, g, out)
+            if key is not None:
+                self.cache[key] = out
+        if frm:
+            out = [(rv, g2, tuple(m2) + frm) for (rv, g2, m2) in out]
         return out
 
     def on_return(self, path, argvals, g_in, outs):
@@ -741,7 +777,7 @@ class Machine:
             seen = set()
             res = []
             for (rv, g, memo) in outs:
-                memo2 = tuple(kv for kv in memo if kv[0][0] in ('cls', 'eof'))
+                memo2 = tuple(kv for kv in memo if kv[0][0] in ('cls', 'eof', 'from'))
                 r = (rv, g._replace(WL=0), memo2)
                 if r not in seen:
                     seen.add(r)
@@ -939,7 +975,7 @@ class Machine:
             v = self.operand(t[1], env, g, path)
             if v[0] == 'cfg':
                 # an `omit` style flag decides a branch: fork, remembering on the true edge that an omission is in effect
-                armed = g.HH == 2 or (memo and memo[0][0] == 'eof')
+                armed = g.HH == 2 or any(k[0] == 'eof' for k, _ in memo)
                 self._switch_known(t, 1, dict(env), g._replace(OM=1) if armed else g, memo, work)
                 self._switch_known(t, 0, dict(env), g, memo, work)
                 return
@@ -1056,20 +1092,29 @@ class Machine:
             self.stats['lines_next'] += 1
             self.end_of_line(g, memo)
             g = g._replace(S0=(g.S if self.color_only else 0), CL=0, NL=0, DEF=0, WL=0, OM=0, HW=0, DW=0, RO=1)
+            src = None
             if len(self.stack) == 1:
                 # the per-line counters have just been reset: a line-start state already explored need not be explored again
                 if g in self.linestart_seen:
                     return []
                 self.linestart_seen.add(g)
-            outs = [(ENUM(OPT, 0, []), g, (('eof', True),))]
+                # witness bookkeeping: which line-start state and line class led here first
+                md = dict(memo)
+                idx = len(self.ls_index)
+                self.ls_index[g] = idx
+                self.ls_parent[idx] = (md.get(('from', 'line', None)), md.get(('cls', 'line', None)), self.gstr(g))
+                src = (('from', 'line', None), idx)
+            extra = (src,) if src else ()
+            outs = [(ENUM(OPT, 0, []), g, (('eof', True),) + extra)]
             okres = ENUM(OPT, 1, [ENUM(RES, 0, [T0])])
             for cls in ([None] + [c for c in self.CLASSES if c is not None and c.strip() == ''] if self.passthrough else self.CLASSES):
                 if not self.class_allowed(cls, g):
                     continue
+                g_line = g._replace(PL=1 if (cls is not None and cls.startswith('+++ ')) else 0)
                 if self.passthrough and self.SVN[g.S] not in self.PT_STATES:
                     continue
                 self.loophead[g] += 1
-                outs.append((okres, g, ((('cls', 'line', None), cls),)))
+                outs.append((okres, g_line, ((('cls', 'line', None), cls),) + extra))
             return outs
         # ---- models of std ----
         if callee.endswith('Try>::branch'):
@@ -1226,6 +1271,9 @@ class Machine:
         # hand-off of the captured hunk header to an emitter
         if g.HH in (1, 3) and sum(1 for a in av if 'hh_payload' in prov_of(a)) >= 2 and any(a[0] == 'ref' and a[1][0] == 'SM' for a in av):
             self.events['HDR_HUNK_HANDOFF'] += 1
+            if not g.SY:
+                self.violate('STALE-SYNTAX', path, 'a hunk is about to be painted although the language has not been (re)selected since the file name last changed: '
+                             'it is highlighted with the previous file\'s syntax', g, facet='SY=0')
             g = g._replace(HH=2, HW=0)
             outs = self._descend2(path, c, callee, av, g, memo)
             res = []
@@ -1436,7 +1484,7 @@ class Machine:
     # ------------------------------------------------------------------ driver
     def g0(self):
         return G(S=self.SV['Unknown'], SRC=self.SRCV['Unknown'], Lm=0, Lq=0, LBp=0, MB=0, MBp=0, OB=0, HP=0, HH=0,
-                 S0=self.SV['Unknown'], CL=0, NL=0, DEF=0, WL=0, HW=0, OM=0, REL='E0', DW=0, RO=1)
+                 S0=self.SV['Unknown'], CL=0, NL=0, DEF=0, WL=0, HW=0, OM=0, REL='E0', DW=0, RO=1, SY=1, PL=0)
 
     def analyse_passthrough(self, seeds):
         """from every given line-start state: feed lines that match no marker and no recogniser"""
@@ -1538,7 +1586,7 @@ def run_mode(F, mode, cache_key=None):
     out = {
         'mode': mode,
         'summary': m.summary(),
-        'violations': [dict(v, via=v['via'].most_common(6), frames=sorted(v['frames']), classes=sorted(map(str, v['classes']))) for v in m.viol.values()],
+        'violations': [dict(v, via=v['via'].most_common(6), frames=sorted(v['frames']), classes=sorted(map(str, v['classes'])), witness=v.get('witness', [])) for v in m.viol.values()],
         'aborts': list(m.aborts.values()),
         'loophead': [m.gstr(g) for g in sorted(m.loophead, key=m.gstr)],
         'loophead_g': [tuple(g) for g in sorted(m.loophead, key=m.gstr)],
